@@ -51,6 +51,12 @@ func vScopes(dss []string) [][]string {
 	}
 	if len(dss) > 1 {
 		sc = append(sc, dss)
+		// the same scope named in the opposite order (callers name datasets in any order)
+		rev := make([]string, len(dss))
+		for i, d := range dss {
+			rev[len(dss)-1-i] = d
+		}
+		sc = append(sc, rev)
 	}
 	return sc
 }
@@ -376,6 +382,16 @@ func vWriteAlphabet(dss, ids []string, single, pairs []int, txn [][2]int) []VOp 
 		for _, a := range pairs {
 			for _, b := range pairs {
 				ops = append(ops, VOp{K: "batch", DS: dss[0], Ents: []VEnt{{ids[0], a}, {ids[0], b}}})
+			}
+		}
+	}
+	// the same id three times in one batch: change, back, change again
+	if len(pairs) > 0 && len(pairs) <= 4 {
+		for _, a := range pairs {
+			for _, b := range pairs {
+				if a != b {
+					ops = append(ops, VOp{K: "batch", DS: dss[0], Ents: []VEnt{{ids[0], a}, {ids[0], b}, {ids[0], a}}})
+				}
 			}
 		}
 	}
